@@ -57,13 +57,18 @@ func (w *world) startService() {
 	opts := []service.Option{
 		service.WithHostPorts(w.plan.Svc.Addr),
 		service.WithHasSubcontract(w.plan.Svc.Filter),
-		service.WithCustomTerminalEventer(func() service.TerminalEventer {
+	}
+	if !w.plan.Svc.DefaultEvents {
+		opts = append(opts, service.WithCustomTerminalEventer(func() service.TerminalEventer {
 			return &recEventer{w: w, conn: connOfPeer(simnet.LastAccepted)}
-		}),
+		}))
 	}
 	if w.plan.Svc.KeyMode != "" {
 		plan := w.plan
 		opts = append(opts, service.WithKeyFunc(func(m *service.Message) (string, bool) {
+			if plan.Svc.KeyMode == "tag-nohb" && m.JTMessage.Header.ID == 0x0002 {
+				return "", false
+			}
 			return plan.KeyOfDigits(m.JTMessage.Header.TerminalPhoneNo), true
 		}))
 	}
